@@ -256,3 +256,40 @@ def impl_load_then_add(case):
                     out.append([type(e).__name__])
                 return out
     return out
+
+
+def impl_add_then_load(case):
+    """a manifest that already holds images loads a current document in which one image has the identity of an image it
+    holds and other checksums: the same rule applies, whatever route the second image takes"""
+    import productmd.images as IM
+    src = IM.Images()
+    try:
+        src.loads(json.dumps(case["doc"]))
+    except EXC as e:
+        return ["load-" + type(e).__name__]
+    cells = [(v, a) for v in sorted(src.images) for a in sorted(src.images[v])]
+    if not cells:
+        return ["empty"]
+    v, a = cells[0]
+    old = sorted(src.images[v][a], key=lambda o: o.path)[0]
+    holder = IM.Images()
+    for k in ("id", "type", "date", "respin", "label", "final"):
+        setattr(holder.compose, k, getattr(src.compose, k))
+    twin = IM.Image(holder)
+    for f in FIELDS:
+        setattr(twin, f, copy.deepcopy(getattr(old, f)))
+    twin.path = old.path + ".held"
+    twin.checksums = {"sha256": "e" * 64}
+    other_arch = [x for x in ("x86_64", "ppc64le", "aarch64", "s390x") if x != a][0]
+    try:
+        holder.add(case.get("holder_variant", "Held"), other_arch if case.get("other_cell") else a, twin)
+    except EXC as e:
+        return ["setup-" + type(e).__name__]
+    doc = json.loads(src.dumps())          # a current-version document
+    try:
+        holder.loads(json.dumps(doc))
+    except ValueError:
+        return ["refused"]
+    except EXC as e:
+        return ["raised", type(e).__name__]
+    return ["accepted", v, a, old.path]
